@@ -8,6 +8,7 @@ import Stackage.Driver.Opts
 import Stackage.Driver.Sweep
 import Stackage.Driver.Defrag
 import Stackage.Driver.Reveal
+import Stackage.Driver.Sched
 
 /-! Correspondence driver: case lines on stdin, `<id> M <model>` and `<id> S <spec>` lines on stdout. -/
 
@@ -26,6 +27,7 @@ def dispatch (stream payload : String) : String × String × String :=
   else if ["frozen", "inert", "queries"].contains stream then runSweep payload
   else if stream == "nilpat" then runDefrag payload
   else if stream == "revealtrees" then runReveal payload
+  else if stream == "sched" then runSched payload
   else ("NOSTREAM", "NOSTREAM", "")
 
 partial def loop (h : IO.FS.Stream) (out : IO.FS.Stream) : IO Unit := do
